@@ -433,7 +433,7 @@ def run(args):
         cfgs += [dict(arch="a3", M=12, KN=6, metrics=("ENERGY", "LATENCY"), imperfect=True, glb_size=65536),
                  dict(arch="simple", M=8, KN=6, metrics=("LATENCY",), glb_size=1024),
                  dict(arch="a3", M=6, KN=12, metrics=("ENERGY_DELAY_PRODUCT",), glb_size=65536)]
-    per_cfg = 16 if args.tier == "quick" else 100
+    per_cfg = 16 if args.tier == "quick" else 40
     payloads = []
     for cfg in cfgs:
         n = len(get_jobs(**cfg))
